@@ -24,13 +24,13 @@ RULE = ('bfs x dev: transitions = edits applied (per query-interleaving variant)
         'where the source changed; states = canonical (kind, indent, src, positioned dump); traces = battery comparisons')
 ASSUMPTIONS = ['fresh twin is built with the same root kind and indent', 'norm=True, pars auto']
 BOUNDS = {
-    'quick': '40 programs; depth 1: 3 codes x (src, fst) x {no query, full battery before the edit}; each single query group '
+    'quick': '46 programs; depth 1: 2 codes x (src, fst) + par()/unpar() x {no query, full battery before the edit}; each single query group '
              '(7) before the edit with the 1-code alphabet; depth 2 (no pre-queries): replace/remove/put_slice/insert/docstr/'
-             'line-comment with 1 code after every distinct depth-1 state of 14 programs',
+             'line-comment with 1 code after every distinct depth-1 state of 8 programs',
     'thorough': 'depth 1: 6 codes x 3 forms x 9 variants; depth 2: 2 codes from every distinct depth-1 state x 3 variants',
 }
 
-D2_QUICK = (0, 1, 5, 10, 11, 12, 15, 16, 20, 22, 23, 27, 28, 38, 44)
+D2_QUICK = (0, 10, 11, 15, 22, 23, 28, 44)
 VARIANTS_Q = ['none', 'full']
 VARIANTS_ALL = ['none', 'full'] + list(B.GROUPS)
 
@@ -111,7 +111,7 @@ def run_shard(desc, tier, res):
                 res.sample({'start': src0, 'history': [E.op_id(o) for o in hist], 'variant': variant, 'result': c2[2]})
             return ok
 
-        a1 = dict(nk=3, nks=2, forms=('src', 'fst'), opts=({},), extra=('par',)) if tier == 'quick' else dict(nk=6, nks=3, opts=({},), extra=('par',))
+        a1 = dict(nk=2, nks=1, forms=('src', 'fst'), opts=({},), extra=('par-lite',)) if tier == 'quick' else dict(nk=6, nks=3, opts=({},), extra=('par',))
         a2 = dict(nk=1, nks=1, forms=('src',), opts=({},), kinds=('replace', 'remove', 'put_slice', 'del_slice', 'insert',
                                                                   'setattr', 'delattr', 'docstr', 'line_comment')) \
             if tier == 'quick' else dict(nk=2, nks=1, forms=('src',), opts=({},))
